@@ -268,7 +268,12 @@ class _Fail(Exception):
     pass
 
 
-def hyp_search(strategy, check_fn, n_examples, seed, res: Result, known_sigs=frozenset(), shrink=True, stateful=False):
+class _ShrinkBudget(KeyboardInterrupt):
+    """Raised inside the property to stop Hypothesis once the shrinking budget
+    is used up; the smallest failing case seen so far is reported."""
+
+
+def hyp_search(strategy, check_fn, n_examples, seed, res: Result, known_sigs=frozenset(), shrink=True, stateful=False, shrink_budget_s=None):
     """Drive check_fn(case, res) -> list[violation dict] over `strategy`.
 
     Violations whose signature is a listed known finding are counted in
@@ -280,7 +285,9 @@ def hyp_search(strategy, check_fn, n_examples, seed, res: Result, known_sigs=fro
     from hypothesis import HealthCheck, Phase, given, settings
 
     last = {}
-    state = {"shrinking": False}
+    state = {"shrinking": False, "t_fail": None}
+    if shrink_budget_s is None:
+        shrink_budget_s = float(os.environ.get("VERIF_SHRINK_BUDGET", "40" if os.environ.get("VERIF_TIER", "quick") == "quick" else "200"))
 
     phases = [Phase.explicit, Phase.generate, Phase.target]
     if shrink:
@@ -299,6 +306,8 @@ def hyp_search(strategy, check_fn, n_examples, seed, res: Result, known_sigs=fro
     )
     @given(strategy)
     def test(case):
+        if state["shrinking"] and time.time() - state["t_fail"] > shrink_budget_s:
+            raise _ShrinkBudget()
         probe = Result() if state["shrinking"] else res
         vs = check_fn(case, probe)
         unknown = []
@@ -309,13 +318,15 @@ def hyp_search(strategy, check_fn, n_examples, seed, res: Result, known_sigs=fro
             else:
                 unknown.append(v)
         if unknown:
+            if not state["shrinking"]:
+                state["t_fail"] = time.time()
             state["shrinking"] = True
             last["v"] = unknown
             raise _Fail(unknown[0]["signature"])
 
     try:
         test()
-    except _Fail:
+    except (_Fail, _ShrinkBudget):
         for v in last["v"]:
             res.violation(**{k: v.get(k) for k in ("signature", "case", "expected", "observed", "note")})
     except hypothesis.errors.HypothesisException as e:
